@@ -389,7 +389,14 @@ func judge(t *Template, exp *Expect, o outcome) (clause, detail string) {
 	}
 	if o.failed {
 		if exp.Unreached {
-			return "", "" // error in a pruned role: the statement does not settle the verdict
+			// "roles whose enabled expression is false are absent together with their whole subtree": what
+			// is absent is not evaluated, so a template error inside a pruned role (or in the body of an
+			// iterator over nothing) is no error of the tree being built. The unchanged code agrees on
+			// every template of the grids; C15_LENIENT_PRUNED=1 restores the earlier, undecided reading.
+			if os.Getenv("C15_LENIENT_PRUNED") != "" {
+				return "", ""
+			}
+			return "pruned-role-evaluated", "the load failed on a template error that sits in a role which is pruned: " + o.err
 		}
 		return "spurious-failure", "load failed without any template error: " + o.err
 	}
